@@ -246,13 +246,24 @@ class FakeLink:
         self.dev = dev
         self.uri = uri
         self.rx_calls = 0
+        self.held = None
+        dev.__dict__.setdefault('_links', []).append(self)
 
     def send_packet(self, pk):
-        self.dev.on_packet(pk.header, bytes(pk.data))
+        # like the radio driver's one-slot out queue, the link keeps the packet *object* and puts it on the air later
+        # (here: at the next call into the link) - what goes out is what the object holds at that moment
+        self.flush()
+        self.held = pk
+
+    def flush(self):
+        pk, self.held = self.held, None
+        if pk is not None:
+            self.dev.on_packet(pk.header, bytes(pk.data))
 
     def receive_packet(self, wait=0):
         from cflib.crtp.crtpstack import CRTPPacket
         dev = self.dev
+        self.flush()
         self.rx_calls += 1
         if self.rx_calls > 50 * (dev.budget + len(dev.events) + 100):
             raise _Runaway('receive_packet polled without end')
@@ -269,7 +280,7 @@ class FakeLink:
         return (uris[-1],)
 
     def close(self):
-        pass
+        self.flush()
 
 
 # ---------------------------------------------------------------------------------------------
@@ -342,6 +353,11 @@ def run_case(case, tmpdir=None):
             result = ('raised', type(e).__name__, str(e)[:60])
     finally:
         sys.stdout = saved
+        for lk in dev.__dict__.get('_links', []):
+            try:
+                lk.flush()
+            except _Runaway:
+                pass
         _CUR['dev'] = None
     return {'events': dev.events, 'begin': flash_begin, 'result': result, 'dev': dev,
             'attempts': dev.attempt, 'msgs': msgs}
